@@ -247,6 +247,10 @@ def run(repo: Repo, L: Ledger, tier: str):
         lv = loops[0].target.id
         ok7, why7 = True, ""
         n_paths = 0
+        early = [x for x in walk_shallow(loops[0]) if isinstance(x, ast.Break | ast.Return) and not any(isinstance(a_, ast.For | ast.While) and a_ is not loops[0] for a_ in _ancestors_upto(x, loops[0]))]
+        if early:
+            L.fail("R7", f"Assembly.{name}:early-exit", f"the loop over the scaffolds is left by '{norm(early[0])}' (line {early[0].lineno}): the junctions of every later scaffold are missing from this side of the comparison, so unchanged adjacencies are reported as joins", f.loc(early[0]), witness={"input": "a scaffold without contigs (gap-only object) listed before the others"})
+            continue
         for p in PathEnum((0, 1), exc_edges=False).block(loops[0].body):
             n_paths += 1
             got = [
@@ -273,3 +277,12 @@ def run(repo: Repo, L: Ledger, tier: str):
         L.check(ok7, "R7", f"Assembly.{name}", "every scaffold's fragment_junction_set() is collected", why7, f.loc(), witness={"input": "a scaffold of exactly two abutting contigs and no gap row"})
     L.floor("R7", "collector loop paths", n7, 2)
     L.assume("bait differs from the scaffold span by less than one texel plus integer rounding at each end (overhangs <= error_length)")
+
+
+def _ancestors_upto(node, stop):
+    out = []
+    cur = getattr(node, "_parent", None)
+    while cur is not None and cur is not stop:
+        out.append(cur)
+        cur = getattr(cur, "_parent", None)
+    return out
